@@ -121,8 +121,11 @@ def run(vc):
     vc.native_standins.append(dict(
         name="runpp_3ph against runpp on a fixed symmetric network",
         bound="one 110/20 kV network (YNyn transformer, two lines with zero-sequence data, symmetric loads and sgen): phase magnitudes equal the "
-              "symmetric power flow, phase angles -120 / +120 degrees, per-phase line powers one third of the symmetric result",
-        script="from replaylib.threephase import main\nmain()\n"))
+              "symmetric power flow, phase angles -120 / +120 degrees, per-phase line powers one third of the symmetric result; the same network "
+              "with load / sgen / asymmetric load at the ext_grid bus (per-phase balance at the slack bus), an out-of-service ext_grid listed "
+              "first, two ext_grids at one bus, sgens of type 'PV' / None",
+        script="import sys\nfrom replaylib.threephase import main, main_more\n"
+               "for f in (main, main_more):\n    try:\n        f()\n    except SystemExit as e:\n        if e.code:\n            raise\n"))
 
 
 def classify(ob, model):
